@@ -909,6 +909,25 @@ def involves_interrupt(v, **_):
 
 PREDICATES = {'involves_interrupt': involves_interrupt}
 
+STANDALONE_INTERRUPT = '''\
+import sc3
+sc3.init('nrt')
+from sc3.base.main import main
+from sc3.synth.synthdef import SynthDef
+from sc3.synth.ugens.oscillators import SinOsc
+
+def graph():
+    SinOsc.ar(440)
+    raise KeyboardInterrupt()      # e.g. Ctrl-C while the function runs
+
+try:
+    SynthDef('g', graph)
+except KeyboardInterrupt:
+    pass
+assert main._current_synthdef is None, main._current_synthdef
+assert SinOsc.ar(1)._synthdef is None   # a unit created outside any build
+'''
+
 
 # ---------------------------------------------------------------------------
 # parent side
@@ -964,9 +983,12 @@ def _resolve(ctx, cands):
             lost.append((kind, e))
             continue
         v, case = chosen
-        ctx.violation({'kind': kind, 'case': case, 'expected': v['expected'],
-                       'observed': v['observed'], 'detail': v['detail'],
-                       'size': v['size'] + (10 ** 7 if 'walk' in case else 0)})
+        viol = {'kind': kind, 'case': case, 'expected': v['expected'],
+                'observed': v['observed'], 'detail': v['detail'],
+                'size': v['size'] + (10 ** 7 if 'walk' in case else 0)}
+        if 'interrupt' in kind and 'context-left-set' in kind:
+            viol['standalone'] = STANDALONE_INTERRUPT
+        ctx.violation(viol)
         registered += 1
     ctx.violation_count += cands.n - registered
     if lost and not registered:
